@@ -1,7 +1,1819 @@
-//! C08: not implemented yet.
+//! C08: uncommitted changes are isolated from other handles; reads inside a transaction see the snapshot
+//! taken at BEGIN plus own writes; of two overlapping transactions that modify the same row at most one commits.
+//!
+//! Two drivers, both executed in worker subprocesses of this binary (`tv C08 worker ...`) under a supervising
+//! parent (a hang or a hard death of TurDB is attributed to the announced case and re-run alone):
+//!  (i)  `det`: 2-3 cloned handles on ONE thread; a library of small per-handle programs; all merges of the
+//!       programs (thorough) or canonical + sampled merges (quick) are executed, each on a fresh database;
+//!  (ii) `thr`: 2-4 threads on cloned handles run random programs, with the yield hook perturbing the commit path.
+//! Every written value is unique ("h<handle>t<txn>s<stmt>"), so each observed value identifies the write that
+//! produced it. The oracle is a history checker over recorded reads / writes / commits / aborts.
+use crate::report::{catch, Ctx};
+use crate::rng::{fnv, Rng};
+use crate::sqlm::db::Scratch;
 use crate::Args;
+use serde_json::{json, Value as J};
+use std::collections::{BTreeMap, BTreeSet, HashMap};
+use std::io::{BufRead, Write};
+use std::sync::atomic::{AtomicBool, AtomicU64, Ordering};
+use std::sync::{mpsc, Arc, Mutex};
+use std::time::{Duration, Instant};
+use turdb::{Database, ExecuteResult, OwnedValue};
 
-pub fn run(_a: &Args) -> i32 {
-    println!("INCONCLUSIVE property=C08 reason=check not implemented yet");
-    2
+// ------------------------------------------------------------------------------------------------ programs
+
+#[derive(Clone, Copy, Debug, PartialEq, Eq, Hash, PartialOrd, Ord)]
+pub enum AP {
+    Scan,
+    Pk,
+    Sec,
+    Count,
+}
+impl AP {
+    fn name(self) -> &'static str {
+        match self {
+            AP::Scan => "full_scan",
+            AP::Pk => "pk_lookup",
+            AP::Sec => "secondary_index",
+            AP::Count => "count_star",
+        }
+    }
+    fn short(self) -> &'static str {
+        match self {
+            AP::Scan => "scan",
+            AP::Pk => "pk",
+            AP::Sec => "sec",
+            AP::Count => "count",
+        }
+    }
+}
+const READ_PATHS: [AP; 4] = [AP::Scan, AP::Pk, AP::Sec, AP::Count];
+const WRITE_VIAS: [AP; 3] = [AP::Pk, AP::Sec, AP::Scan];
+
+#[derive(Clone, Copy, Debug, PartialEq, Eq, Hash, PartialOrd, Ord)]
+pub enum Op {
+    Ins,
+    Upd,
+    Del,
+}
+impl Op {
+    fn name(self) -> &'static str {
+        match self {
+            Op::Ins => "insert",
+            Op::Upd => "update",
+            Op::Del => "delete",
+        }
+    }
+}
+
+#[derive(Clone, Debug, PartialEq, Eq, Hash)]
+pub enum St {
+    Begin,
+    Commit,
+    Rollback,
+    Ins { tab: u8, id: i64 },
+    Upd { tab: u8, id: i64, via: AP },
+    Del { tab: u8, id: i64, via: AP },
+    Read { tab: u8, path: AP },
+}
+
+fn tname(tab: u8) -> &'static str {
+    if tab == 0 {
+        "a"
+    } else {
+        "b"
+    }
+}
+fn kof(id: i64) -> i64 {
+    id * 10
+}
+fn where_via(via: AP, id: i64) -> String {
+    match via {
+        AP::Pk => format!("id = {}", id),
+        AP::Sec => format!("k = {}", kof(id)),
+        _ => format!("id + 0 = {}", id),
+    }
+}
+
+impl St {
+    fn is_ctl(&self) -> bool {
+        matches!(self, St::Begin | St::Commit | St::Rollback)
+    }
+    /// SQL text (reads: the statement family)
+    fn sql(&self, val: &str) -> String {
+        match self {
+            St::Begin => "BEGIN".into(),
+            St::Commit => "COMMIT".into(),
+            St::Rollback => "ROLLBACK".into(),
+            St::Ins { tab, id } => format!("INSERT INTO {} VALUES ({}, {}, '{}')", tname(*tab), id, kof(*id), val),
+            St::Upd { tab, id, via } => format!("UPDATE {} SET v = '{}' WHERE {}", tname(*tab), val, where_via(*via, *id)),
+            St::Del { tab, id, via } => format!("DELETE FROM {} WHERE {}", tname(*tab), where_via(*via, *id)),
+            St::Read { tab, path } => match path {
+                AP::Scan => format!("SELECT id, v FROM {}", tname(*tab)),
+                AP::Pk => format!("SELECT id, v FROM {} WHERE id = <each key>", tname(*tab)),
+                AP::Sec => format!("SELECT id, v FROM {} WHERE k = <each key*10>", tname(*tab)),
+                AP::Count => format!("SELECT COUNT(*) FROM {}", tname(*tab)),
+            },
+        }
+    }
+}
+
+const INIT_IDS: [i64; 3] = [1, 2, 3];
+fn init_val(tab: u8, id: i64) -> String {
+    format!("init{}.{}", tname(tab), id)
+}
+
+#[derive(Clone, Debug)]
+pub struct Case {
+    pub progs: Vec<Vec<St>>,
+    pub sched: Vec<usize>,
+    pub wal: bool,
+}
+
+impl Case {
+    fn tabs(&self) -> BTreeSet<u8> {
+        let mut s = BTreeSet::new();
+        s.insert(0);
+        for p in &self.progs {
+            for st in p {
+                match st {
+                    St::Ins { tab, .. } | St::Upd { tab, .. } | St::Del { tab, .. } | St::Read { tab, .. } => {
+                        s.insert(*tab);
+                    }
+                    _ => {}
+                }
+            }
+        }
+        s
+    }
+    fn universe(&self, tab: u8) -> Vec<i64> {
+        let mut s: BTreeSet<i64> = INIT_IDS.iter().copied().collect();
+        for p in &self.progs {
+            for st in p {
+                if let St::Ins { tab: t, id } = st {
+                    if *t == tab {
+                        s.insert(*id);
+                    }
+                }
+            }
+        }
+        s.into_iter().collect()
+    }
+    fn hash(&self) -> u64 {
+        fnv(format!("{:?}|{:?}|{}", self.progs, self.sched, self.wal).as_bytes())
+    }
+    /// values written by each statement: (handle, stmt index) -> "h<h>t<txn>s<stmt>"
+    fn val_of(&self, h: usize, si: usize) -> String {
+        let mut t = 0;
+        for (i, st) in self.progs[h].iter().enumerate() {
+            if i == si {
+                break;
+            }
+            if matches!(st, St::Commit | St::Rollback) {
+                t += 1;
+            } else if !self.in_txn_at(h, i) && !st.is_ctl() {
+                t += 1;
+            }
+        }
+        format!("h{}t{}s{}", h, t, si)
+    }
+    fn in_txn_at(&self, h: usize, si: usize) -> bool {
+        let mut open = false;
+        for st in self.progs[h].iter().take(si) {
+            match st {
+                St::Begin => open = true,
+                St::Commit | St::Rollback => open = false,
+                _ => {}
+            }
+        }
+        open
+    }
+    fn render(&self) -> J {
+        let mut pcs = vec![0usize; self.progs.len()];
+        let mut lines = vec![];
+        for &h in &self.sched {
+            let si = pcs[h];
+            if si >= self.progs[h].len() {
+                continue;
+            }
+            pcs[h] += 1;
+            lines.push(format!("h{}: {}", h, self.progs[h][si].sql(&self.val_of(h, si))));
+        }
+        json!({"handles": self.progs.len(), "wal": self.wal, "setup": setup_sql(&self.tabs()), "schedule": lines})
+    }
+}
+
+fn setup_sql(tabs: &BTreeSet<u8>) -> Vec<String> {
+    let mut v = vec![];
+    for &t in tabs {
+        v.push(format!("CREATE TABLE {} (id INT PRIMARY KEY, k INT, v TEXT)", tname(t)));
+        v.push(format!("CREATE INDEX {}_k ON {} (k)", tname(t), tname(t)));
+        for id in INIT_IDS {
+            v.push(format!("INSERT INTO {} VALUES ({}, {}, '{}')", tname(t), id, kof(id), init_val(t, id)));
+        }
+    }
+    v
+}
+
+// ------------------------------------------------------------------------------------------------ history
+
+#[derive(Clone, Copy, Debug, PartialEq, Eq)]
+enum Status {
+    Active,
+    Committed,
+    Aborted,
+    Unknown,
+}
+
+#[derive(Clone, Debug)]
+struct WriteRec {
+    inv: u64,
+    ret: u64,
+    tab: u8,
+    id: i64,
+    op: Op,
+    val: Option<String>,
+    via: AP,
+    affected: usize,
+}
+
+#[derive(Clone, Debug)]
+struct TxnRec {
+    h: usize,
+    explicit: bool,
+    /// BEGIN invoked / returned (autocommit: statement invoked / invoked)
+    begin_inv: u64,
+    begin_ret: u64,
+    /// COMMIT/ROLLBACK invoked, returned (autocommit: statement invoked / returned)
+    end_inv: u64,
+    end_ret: u64,
+    status: Status,
+    writes: Vec<WriteRec>,
+}
+
+#[derive(Clone, Debug)]
+enum Obs {
+    /// keys covered by the read -> observed value (None = row absent)
+    Keys(BTreeMap<i64, Option<String>>),
+    Count(i64),
+    Err(String),
+}
+
+#[derive(Clone, Debug)]
+struct ReadRec {
+    txn: usize,
+    inv: u64,
+    ret: u64,
+    tab: u8,
+    path: AP,
+    obs: Obs,
+    /// rows the read returned that it must never return (wrong id for the probed key, duplicates)
+    strange: Vec<String>,
+}
+
+#[derive(Clone, Debug, Default)]
+struct Hist {
+    txns: Vec<TxnRec>,
+    reads: Vec<ReadRec>,
+    panics: Vec<(String, String)>,
+    errors: Vec<(String, String)>,
+}
+
+#[derive(Clone, Debug)]
+pub struct Viol {
+    pub assertion: String,
+    pub sig: String,
+    pub detail: J,
+}
+
+/// one handle executing statements and recording its part of the history
+struct Runner<'a> {
+    h: usize,
+    db: &'a Database,
+    clock: &'a AtomicU64,
+    cur: Option<usize>,
+    dead: bool,
+    hist: Hist,
+}
+
+fn tick(c: &AtomicU64) -> u64 {
+    c.fetch_add(1, Ordering::SeqCst)
+}
+
+fn exec(db: &Database, sql: &str) -> Result<ExecuteResult, String> {
+    match catch(|| db.execute(sql)) {
+        Ok(Ok(r)) => Ok(r),
+        Ok(Err(e)) => Err(format!("{:#}", e)),
+        Err(p) => Err(format!("PANIC: {}", p)),
+    }
+}
+
+fn text_of(v: &OwnedValue) -> Option<String> {
+    match v {
+        OwnedValue::Text(s) => Some(s.clone()),
+        OwnedValue::Null => None,
+        other => Some(format!("{:?}", other)),
+    }
+}
+fn int_of(v: &OwnedValue) -> Option<i64> {
+    match v {
+        OwnedValue::Int(i) => Some(*i),
+        _ => None,
+    }
+}
+
+impl<'a> Runner<'a> {
+    fn new(h: usize, db: &'a Database, clock: &'a AtomicU64) -> Self {
+        Runner { h, db, clock, cur: None, dead: false, hist: Hist::default() }
+    }
+    fn note_err(&mut self, sql: &str, e: &str) {
+        if e.starts_with("PANIC: ") {
+            self.hist.panics.push((sql.to_string(), e.to_string()));
+        } else {
+            self.hist.errors.push((sql.to_string(), e.to_string()));
+        }
+    }
+    fn abort_open(&mut self) {
+        if let Some(t) = self.cur.take() {
+            let inv = tick(self.clock);
+            let r = exec(self.db, "ROLLBACK");
+            let ret = tick(self.clock);
+            let tx = &mut self.hist.txns[t];
+            tx.end_inv = inv;
+            tx.end_ret = ret;
+            tx.status = if r.is_ok() { Status::Aborted } else { Status::Unknown };
+            if let Err(e) = r {
+                self.note_err("ROLLBACK", &e);
+            }
+        }
+    }
+    /// query helper for reads
+    fn select(&mut self, sql: &str) -> Result<Vec<Vec<OwnedValue>>, String> {
+        match exec(self.db, sql) {
+            Ok(ExecuteResult::Select { rows, .. }) => Ok(rows.into_iter().map(|r| r.values).collect()),
+            Ok(o) => Err(format!("not a select result: {:?}", o).chars().take(120).collect()),
+            Err(e) => Err(e),
+        }
+    }
+    fn read(&mut self, tab: u8, path: AP, universe: &[i64]) {
+        // autocommit read = its own single-statement transaction record (no writes)
+        let t = tname(tab);
+        let mut probes: Vec<(String, Vec<i64>)> = vec![];
+        match path {
+            AP::Scan => probes.push((format!("SELECT id, v FROM {}", t), universe.to_vec())),
+            AP::Pk => {
+                for &id in universe {
+                    probes.push((format!("SELECT id, v FROM {} WHERE id = {}", t, id), vec![id]));
+                }
+            }
+            AP::Sec => {
+                for &id in universe {
+                    probes.push((format!("SELECT id, v FROM {} WHERE k = {}", t, kof(id)), vec![id]));
+                }
+            }
+            AP::Count => probes.push((format!("SELECT COUNT(*) FROM {}", t), vec![])),
+        }
+        for (sql, keys) in probes {
+            let inv = tick(self.clock);
+            let r = self.select(&sql);
+            let ret = tick(self.clock);
+            let txn = match self.cur {
+                Some(t) => t,
+                None => {
+                    self.hist.txns.push(TxnRec { h: self.h, explicit: false, begin_inv: inv, begin_ret: inv, end_inv: inv, end_ret: ret, status: Status::Committed, writes: vec![] });
+                    self.hist.txns.len() - 1
+                }
+            };
+            let mut strange = vec![];
+            let obs = match r {
+                Err(e) => {
+                    self.note_err(&sql, &e);
+                    Obs::Err(e)
+                }
+                Ok(rows) => {
+                    if path == AP::Count {
+                        match rows.first().and_then(|r| r.first()).and_then(int_of) {
+                            Some(n) => Obs::Count(n),
+                            None => Obs::Err("COUNT(*) returned no integer".into()),
+                        }
+                    } else {
+                        let mut m: BTreeMap<i64, Option<String>> = keys.iter().map(|k| (*k, None)).collect();
+                        let mut seen = BTreeSet::new();
+                        for row in rows {
+                            let id = row.first().and_then(int_of);
+                            let v = row.get(1).and_then(text_of);
+                            match id {
+                                Some(id) if m.contains_key(&id) && seen.insert(id) => {
+                                    m.insert(id, Some(v.unwrap_or_else(|| "<NULL>".into())));
+                                }
+                                Some(id) if m.contains_key(&id) => strange.push(format!("duplicate row {:?} for `{}`", row, sql).chars().take(160).collect()),
+                                _ => strange.push(format!("foreign row {:?} for `{}`", row, sql).chars().take(160).collect()),
+                            }
+                        }
+                        Obs::Keys(m)
+                    }
+                }
+            };
+            self.hist.reads.push(ReadRec { txn, inv, ret, tab, path, obs, strange });
+        }
+    }
+    /// execute one program statement
+    fn step(&mut self, st: &St, val: &str, universe_of: &dyn Fn(u8) -> Vec<i64>) {
+        if self.dead {
+            return;
+        }
+        match st {
+            St::Begin => {
+                let inv = tick(self.clock);
+                let r = exec(self.db, "BEGIN");
+                let ret = tick(self.clock);
+                match r {
+                    Ok(_) => {
+                        self.hist.txns.push(TxnRec { h: self.h, explicit: true, begin_inv: inv, begin_ret: ret, end_inv: u64::MAX, end_ret: u64::MAX, status: Status::Active, writes: vec![] });
+                        self.cur = Some(self.hist.txns.len() - 1);
+                    }
+                    Err(e) => {
+                        self.note_err("BEGIN", &e);
+                        self.dead = true;
+                    }
+                }
+            }
+            St::Commit | St::Rollback => {
+                let Some(t) = self.cur else { return };
+                let sql = if matches!(st, St::Commit) { "COMMIT" } else { "ROLLBACK" };
+                let inv = tick(self.clock);
+                let r = exec(self.db, sql);
+                let ret = tick(self.clock);
+                match r {
+                    Ok(_) => {
+                        let tx = &mut self.hist.txns[t];
+                        tx.end_inv = inv;
+                        tx.end_ret = ret;
+                        tx.status = if matches!(st, St::Commit) { Status::Committed } else { Status::Aborted };
+                        self.cur = None;
+                    }
+                    Err(e) => {
+                        self.note_err(sql, &e);
+                        // the outcome of a failed COMMIT is whatever a following ROLLBACK makes of it
+                        self.hist.txns[t].end_inv = inv;
+                        self.abort_open();
+                        self.hist.txns[t].end_inv = inv;
+                        self.dead = true;
+                    }
+                }
+            }
+            St::Read { tab, path } => {
+                let u = universe_of(*tab);
+                self.read(*tab, *path, &u);
+            }
+            St::Ins { tab, id } | St::Upd { tab, id, .. } | St::Del { tab, id, .. } => {
+                let (op, via) = match st {
+                    St::Ins { .. } => (Op::Ins, AP::Pk),
+                    St::Upd { via, .. } => (Op::Upd, *via),
+                    St::Del { via, .. } => (Op::Del, *via),
+                    _ => unreachable!(),
+                };
+                let sql = st.sql(val);
+                let inv = tick(self.clock);
+                let r = exec(self.db, &sql);
+                let ret = tick(self.clock);
+                let affected = match &r {
+                    Ok(ExecuteResult::Insert { rows_affected, .. }) | Ok(ExecuteResult::Update { rows_affected, .. }) | Ok(ExecuteResult::Delete { rows_affected, .. }) => *rows_affected,
+                    _ => 0,
+                };
+                let w = WriteRec { inv, ret, tab: *tab, id: *id, op, val: if op == Op::Del { None } else { Some(val.to_string()) }, via, affected };
+                match (r, self.cur) {
+                    (Ok(_), Some(t)) => self.hist.txns[t].writes.push(w),
+                    (Ok(_), None) => {
+                        self.hist.txns.push(TxnRec { h: self.h, explicit: false, begin_inv: inv, begin_ret: inv, end_inv: inv, end_ret: ret, status: Status::Committed, writes: vec![w] });
+                    }
+                    (Err(e), Some(_)) => {
+                        self.note_err(&sql, &e);
+                        // client reaction to a failed statement inside a transaction: roll back, give up the program
+                        self.abort_open();
+                        self.dead = true;
+                    }
+                    (Err(e), None) => {
+                        self.note_err(&sql, &e);
+                        // failed autocommit statement: a transaction that aborted; its (unique) value must never be seen
+                        self.hist.txns.push(TxnRec { h: self.h, explicit: false, begin_inv: inv, begin_ret: inv, end_inv: inv, end_ret: ret, status: Status::Aborted, writes: vec![WriteRec { affected: 1, ..w }] });
+                    }
+                }
+            }
+        }
+    }
+}
+
+/// merge per-handle histories into one (transaction indices re-based)
+fn merge_hists(parts: Vec<Hist>) -> Hist {
+    let mut out = Hist::default();
+    for p in parts {
+        let base = out.txns.len();
+        out.txns.extend(p.txns);
+        for mut r in p.reads {
+            r.txn += base;
+            out.reads.push(r);
+        }
+        out.panics.extend(p.panics);
+        out.errors.extend(p.errors);
+    }
+    out
+}
+
+// ------------------------------------------------------------------------------------------------ oracle
+
+struct Oracle<'a> {
+    h: &'a Hist,
+    /// value -> (txn index, write index)
+    by_val: HashMap<&'a str, (usize, usize)>,
+    exact: bool,
+    /// rows that two overlapping committed transactions both modified (their final value is undefined: the
+    /// lost update is reported once, reads of the row are not judged against the commit-order state)
+    conflicted: BTreeSet<Key>,
+}
+
+type Key = (u8, i64);
+
+impl<'a> Oracle<'a> {
+    fn new(h: &'a Hist, exact: bool) -> Self {
+        let mut by_val = HashMap::new();
+        for (ti, t) in h.txns.iter().enumerate() {
+            for (wi, w) in t.writes.iter().enumerate() {
+                if let Some(v) = &w.val {
+                    by_val.insert(v.as_str(), (ti, wi));
+                }
+            }
+        }
+        let mut o = Oracle { h, by_val, exact, conflicted: BTreeSet::new() };
+        o.conflicted = o.lost_updates().into_iter().map(|x| x.0).collect();
+        o
+    }
+
+    /// (row, first write, second write, handle of first writer) for every pair of committed transactions that
+    /// both modified a row and definitely overlapped
+    fn lost_updates(&self) -> Vec<(Key, WriteRec, WriteRec, usize)> {
+        let mut out = vec![];
+        let committed: Vec<&TxnRec> = self.h.txns.iter().filter(|t| t.status == Status::Committed && !t.writes.is_empty()).collect();
+        for (i, t1) in committed.iter().enumerate() {
+            for t2 in committed.iter().skip(i + 1) {
+                if t1.h == t2.h {
+                    continue;
+                }
+                // snapshot upper bound < commit lower bound, both ways
+                let s1 = if t1.explicit { t1.begin_ret } else { t1.end_ret };
+                let s2 = if t2.explicit { t2.begin_ret } else { t2.end_ret };
+                if !(s1 < t2.end_inv && s2 < t1.end_inv) {
+                    continue;
+                }
+                for w1 in t1.writes.iter().filter(|w| w.affected > 0 && w.op != Op::Ins) {
+                    for w2 in t2.writes.iter().filter(|w| w.affected > 0 && w.op != Op::Ins) {
+                        if (w1.tab, w1.id) == (w2.tab, w2.id) {
+                            if w1.inv < w2.inv {
+                                out.push(((w1.tab, w1.id), w1.clone(), w2.clone(), t1.h));
+                            } else {
+                                out.push(((w1.tab, w1.id), w2.clone(), w1.clone(), t2.h));
+                            }
+                        }
+                    }
+                }
+            }
+        }
+        out
+    }
+
+    /// committed state just before time `s` (exact mode: all timestamps are totally ordered)
+    fn committed_at(&self, s: u64, tab: u8) -> BTreeMap<i64, String> {
+        let mut m: BTreeMap<i64, String> = INIT_IDS.iter().map(|&i| (i, init_val(tab, i))).collect();
+        let mut ts: Vec<&TxnRec> = self.h.txns.iter().filter(|t| t.status == Status::Committed && t.end_ret < s).collect();
+        ts.sort_by_key(|t| t.end_inv);
+        for t in ts {
+            for w in &t.writes {
+                if w.tab == tab && w.affected > 0 {
+                    match &w.val {
+                        Some(v) => {
+                            m.insert(w.id, v.clone());
+                        }
+                        None => {
+                            m.remove(&w.id);
+                        }
+                    }
+                }
+            }
+        }
+        m
+    }
+
+    /// what the reading transaction must see for the table: snapshot + own writes
+    fn expected(&self, r: &ReadRec) -> BTreeMap<i64, String> {
+        let t = &self.h.txns[r.txn];
+        let s = if t.explicit { t.begin_ret } else { r.inv };
+        let mut m = self.committed_at(s, r.tab);
+        if t.explicit {
+            for w in &t.writes {
+                if w.tab == r.tab && w.affected > 0 && w.ret < r.inv {
+                    match &w.val {
+                        Some(v) => {
+                            m.insert(w.id, v.clone());
+                        }
+                        None => {
+                            m.remove(&w.id);
+                        }
+                    }
+                }
+            }
+        }
+        m
+    }
+
+    /// classify one observation that is not what the reader must see. `ev`: expected value if known.
+    /// Returns (anomaly, writer-op text, explanation)
+    fn classify(&self, r: &ReadRec, key: Key, ov: &Option<String>, ev: Option<&Option<String>>) -> Option<(String, String, String)> {
+        if let Some(ev) = ev {
+            if ev == ov {
+                return None;
+            }
+        }
+        let rt = &self.h.txns[r.txn];
+        // judge a foreign write (transaction `wt`, op `op`) that the observation reflects
+        let foreign = |wt: &TxnRec, op: Op, what: &str| -> Option<(String, String, String)> {
+            match wt.status {
+                Status::Aborted => {
+                    if wt.end_ret <= r.inv {
+                        Some(("no_aborted_read".into(), op.name().into(), format!("{} of a transaction that had rolled back before the read", what)))
+                    } else {
+                        Some(("no_dirty_read".into(), op.name().into(), format!("{} of a transaction that was still open (rolled back later)", what)))
+                    }
+                }
+                Status::Active => Some(("no_dirty_read".into(), op.name().into(), format!("{} of a transaction that never committed", what))),
+                Status::Committed => {
+                    if wt.end_inv > r.ret {
+                        Some(("no_dirty_read".into(), op.name().into(), format!("{} of a transaction whose COMMIT was issued only after the read returned", what)))
+                    } else if rt.explicit && wt.end_inv > rt.begin_ret {
+                        Some(("snapshot".into(), op.name().into(), format!("{} committed after the reader's BEGIN", what)))
+                    } else if self.exact && !self.conflicted.contains(&key) {
+                        Some(("unexplained_read".into(), format!("stale_{}", op.name()), format!("{} committed before the snapshot, but it is not the snapshot's version", what)))
+                    } else {
+                        None
+                    }
+                }
+                Status::Unknown => None,
+            }
+        };
+        match ov {
+            Some(v) => match self.by_val.get(v.as_str()) {
+                None => {
+                    if *v == init_val(key.0, key.1) {
+                        if self.exact {
+                            // the initial version is visible although the reader must see something else
+                            return self.explain_stale_initial(r, key, ev);
+                        }
+                        None
+                    } else {
+                        Some(("unexplained_read".into(), "unknown_value".into(), format!("value {:?} was never written", v)))
+                    }
+                }
+                Some(&(wti, wi)) => {
+                    let wt = &self.h.txns[wti];
+                    let w = &wt.writes[wi];
+                    if (w.tab, w.id) != key {
+                        return Some(("unexplained_read".into(), "value_of_other_row".into(), format!("value {:?} belongs to row {:?}", v, (w.tab, w.id))));
+                    }
+                    if wti == r.txn {
+                        if self.exact {
+                            return Some(("snapshot".into(), format!("own_{}_stale", w.op.name()), "an older own write is visible instead of the latest own write".into()));
+                        }
+                        return None;
+                    }
+                    foreign(wt, w.op, "value")
+                }
+            },
+            None => {
+                // row absent although the reader must see it (only judged when the expectation is known)
+                let Some(Some(evv)) = ev else { return None };
+                // latest foreign delete of the key invoked before the read returned
+                let mut best: Option<(&TxnRec, &WriteRec)> = None;
+                for (ti, t) in self.h.txns.iter().enumerate() {
+                    if ti == r.txn {
+                        continue;
+                    }
+                    for w in &t.writes {
+                        if (w.tab, w.id) == key && w.op == Op::Del && w.affected > 0 && w.inv < r.ret && best.map(|b| b.1.inv < w.inv).unwrap_or(true) {
+                            best = Some((t, w));
+                        }
+                    }
+                }
+                if let Some((t, _)) = best {
+                    if let Some(x) = foreign(t, Op::Del, "delete") {
+                        if x.0 != "unexplained_read" {
+                            return Some(x);
+                        }
+                    }
+                }
+                // is the expected version an own write?
+                if let Some(&(wti, wi)) = self.by_val.get(evv.as_str()) {
+                    if wti == r.txn {
+                        let w = &self.h.txns[wti].writes[wi];
+                        return Some(("snapshot".into(), format!("own_{}_not_seen", w.op.name()), "the reader's own write is not visible to it".into()));
+                    }
+                    // a foreign insert that was rolled back takes the row away; a foreign update that was rolled back may too
+                }
+                // a rollback of a foreign transaction that touched the key removed the row?
+                for (ti, t) in self.h.txns.iter().enumerate() {
+                    if ti != r.txn && t.explicit && t.status == Status::Aborted && t.end_ret <= r.inv && t.writes.iter().any(|w| (w.tab, w.id) == key && w.affected > 0) {
+                        return Some(("no_aborted_read".into(), "rollback_removed_row".into(), "the row vanished after another transaction that had modified it rolled back".into()));
+                    }
+                }
+                Some(("unexplained_read".into(), "row_missing".into(), format!("row must be visible with {:?}", evv)))
+            }
+        }
+    }
+
+    fn explain_stale_initial(&self, r: &ReadRec, key: Key, ev: Option<&Option<String>>) -> Option<(String, String, String)> {
+        // expected: own write or a committed version or absence; observed: the initial version
+        match ev {
+            Some(Some(evv)) => {
+                if let Some(&(wti, wi)) = self.by_val.get(evv.as_str()) {
+                    let w = &self.h.txns[wti].writes[wi];
+                    if wti == r.txn {
+                        return Some(("snapshot".into(), format!("own_{}_not_seen", w.op.name()), "the reader's own write is not visible to it".into()));
+                    }
+                    return Some(("unexplained_read".into(), format!("committed_{}_not_seen", w.op.name()), "a version committed before the snapshot is not visible (initial version seen)".into()));
+                }
+                None
+            }
+            Some(None) => {
+                // must be absent: own delete or committed delete
+                let rt = &self.h.txns[r.txn];
+                if rt.writes.iter().any(|w| (w.tab, w.id) == key && w.op == Op::Del && w.affected > 0 && w.ret < r.inv) {
+                    return Some(("snapshot".into(), "own_delete_not_seen".into(), "the reader's own delete is not visible to it".into()));
+                }
+                // a foreign transaction deleted and an aborted transaction's rollback resurrected it?
+                for (ti, t) in self.h.txns.iter().enumerate() {
+                    if ti != r.txn && t.explicit && t.status == Status::Aborted && t.end_ret <= r.inv && t.writes.iter().any(|w| (w.tab, w.id) == key && w.affected > 0) {
+                        return Some(("no_aborted_read".into(), "rollback_resurrected_row".into(), "a committed delete was undone by the rollback of another transaction".into()));
+                    }
+                }
+                Some(("unexplained_read".into(), "committed_delete_not_seen".into(), "a delete committed before the snapshot is not visible".into()))
+            }
+            None => None,
+        }
+    }
+
+    fn check(&self) -> Vec<Viol> {
+        let mut out: Vec<Viol> = vec![];
+        let mut seen: BTreeSet<String> = BTreeSet::new();
+        let mut push = |assertion: &str, sig: String, detail: J| {
+            if seen.insert(sig.clone()) {
+                out.push(Viol { assertion: assertion.to_string(), sig, detail });
+            }
+        };
+        for r in &self.h.reads {
+            let rt = &self.h.txns[r.txn];
+            if rt.status == Status::Unknown {
+                continue;
+            }
+            if !r.strange.is_empty() {
+                let what = if r.strange.iter().any(|x| x.starts_with("duplicate")) { "duplicate_rows" } else { "foreign_rows" };
+                push("read_returns_only_probed_rows", format!("C08/unexplained_read/{}/{}", r.path.name(), what), json!({"rows": r.strange, "reader": rt.h}));
+            }
+            let exp = if self.exact { Some(self.expected(r)) } else { None };
+            match &r.obs {
+                Obs::Err(_) => {}
+                Obs::Keys(m) => {
+                    for (id, ov) in m {
+                        let ev = exp.as_ref().map(|e| e.get(id).cloned());
+                        if let Some((anomaly, op, why)) = self.classify(r, (r.tab, *id), ov, ev.as_ref()) {
+                            push(&anomaly, format!("C08/{}/{}/{}", anomaly, r.path.name(), op), json!({"reader_handle": rt.h, "reader_in_explicit_txn": rt.explicit, "table": tname(r.tab), "id": id, "observed": ov, "must_see": ev, "why": why}));
+                        }
+                    }
+                }
+                Obs::Count(n) => {
+                    let Some(exp) = exp.as_ref() else { continue };
+                    if *n == exp.len() as i64 {
+                        continue;
+                    }
+                    let d = *n - exp.len() as i64;
+                    // writes of other transactions that change the row count and are NOT part of what the reader must see
+                    let mut cands: Vec<(i64, String, String)> = vec![];
+                    for (ti, t) in self.h.txns.iter().enumerate() {
+                        if ti == r.txn {
+                            continue;
+                        }
+                        for w in &t.writes {
+                            if w.tab != r.tab || w.affected == 0 || w.op == Op::Upd || w.inv > r.ret {
+                                continue;
+                            }
+                            let cat = match t.status {
+                                Status::Aborted if t.explicit && t.end_ret <= r.inv => "no_aborted_read",
+                                Status::Aborted if t.explicit => "no_dirty_read",
+                                Status::Aborted => continue,
+                                Status::Active => "no_dirty_read",
+                                Status::Committed if t.end_inv > r.ret => "no_dirty_read",
+                                Status::Committed if rt.explicit && t.end_inv > rt.begin_ret => "snapshot",
+                                _ => continue,
+                            };
+                            cands.push((if w.op == Op::Ins { 1 } else { -1 }, cat.to_string(), w.op.name().to_string()));
+                        }
+                    }
+                    let singles: BTreeSet<(String, String)> = cands.iter().filter(|c| c.0 == d).map(|c| (c.1.clone(), c.2.clone())).collect();
+                    let all: BTreeSet<(String, String)> = cands.iter().map(|c| (c.1.clone(), c.2.clone())).collect();
+                    let prio = |a: &str| match a {
+                        "no_dirty_read" => 0,
+                        "no_aborted_read" => 1,
+                        _ => 2,
+                    };
+                    let (a, op) = if singles.len() == 1 {
+                        singles.into_iter().next().unwrap()
+                    } else if singles.len() > 1 {
+                        let a = singles.iter().map(|c| c.0.clone()).min_by_key(|a| prio(a)).unwrap();
+                        let ops: BTreeSet<String> = singles.iter().filter(|c| c.0 == a).map(|c| c.1.clone()).collect();
+                        (a, if ops.len() == 1 { ops.into_iter().next().unwrap() } else { "mixed".into() })
+                    } else if !cands.is_empty() && cands.iter().map(|c| c.0).sum::<i64>() == d {
+                        let a = all.iter().map(|c| c.0.clone()).min_by_key(|a| prio(a)).unwrap();
+                        (a, if all.len() == 1 { all.into_iter().next().unwrap().1 } else { "mixed".into() })
+                    } else if !cands.is_empty() && d.abs() as usize <= cands.len() {
+                        // some subset of the leaking writes: attributed, but not to one operation
+                        let a = all.iter().map(|c| c.0.clone()).min_by_key(|a| prio(a)).unwrap();
+                        (a, "mixed".into())
+                    } else {
+                        ("unexplained_read".to_string(), "count_mismatch".to_string())
+                    };
+                    push(&a, format!("C08/{}/count_star/{}", a, op), json!({"reader_handle": rt.h, "table": tname(r.tab), "count": n, "must_be": exp.len(), "count_changing_writes_not_visible_to_reader": cands.len()}));
+                }
+            }
+        }
+        if !self.exact {
+            // repeatable reads inside one explicit transaction: a key's value changes only through own writes
+            let mut per: BTreeMap<(usize, u8, i64), Vec<(&ReadRec, &Option<String>)>> = BTreeMap::new();
+            for r in &self.h.reads {
+                if !self.h.txns[r.txn].explicit {
+                    continue;
+                }
+                if let Obs::Keys(m) = &r.obs {
+                    for (id, ov) in m {
+                        per.entry((r.txn, r.tab, *id)).or_default().push((r, ov));
+                    }
+                }
+            }
+            for ((ti, tab, id), mut v) in per {
+                v.sort_by_key(|x| x.0.inv);
+                for w in v.windows(2) {
+                    let (r1, o1) = w[0];
+                    let (r2, o2) = w[1];
+                    if o1 == o2 {
+                        continue;
+                    }
+                    let own = self.h.txns[ti].writes.iter().any(|x| (x.tab, x.id) == (tab, id) && x.ret > r1.inv && x.inv < r2.ret);
+                    if own {
+                        continue;
+                    }
+                    let op = match o2 {
+                        None => "delete".to_string(),
+                        Some(v) => self.by_val.get(v.as_str()).map(|&(a, b)| self.h.txns[a].writes[b].op.name().to_string()).unwrap_or_else(|| "delete".into()),
+                    };
+                    push("snapshot", format!("C08/snapshot/{}/{}", r2.path.name(), op), json!({"table": tname(tab), "id": id, "first": o1, "then": o2, "why": "two reads of one key inside one transaction differ without an own write in between"}));
+                }
+            }
+        }
+        // lost update: two committed transactions that both modified a row and definitely overlapped
+        for (key, first, second, first_h) in self.lost_updates() {
+            let mut ops = [first.op.name(), second.op.name()];
+            ops.sort();
+            push(
+                "no_lost_update",
+                format!("C08/no_lost_update/{}/{}+{}", second.via.name(), ops[0], ops[1]),
+                json!({"table": tname(key.0), "id": key.1, "first_writer": {"handle": first_h, "value": first.val}, "second_writer": {"value": second.val}, "why": "both transactions modified the row while the other was open and both COMMITs (autocommit statements) succeeded"}),
+            );
+        }
+        for (sql, p) in &self.h.panics {
+            let site = crate::report::panic_site(p);
+            let site = site.rsplit('/').next().unwrap_or("").to_string();
+            push("no_panic", format!("C08/panic/{}", site), json!({"sql": sql, "panic": p}));
+        }
+        out
+    }
+}
+
+/// did the case exercise the mechanism: a read ran while another handle's transaction with a successful write
+/// was open, or two writing transactions overlapped
+fn exercised(h: &Hist) -> bool {
+    for r in &h.reads {
+        for (ti, t) in h.txns.iter().enumerate() {
+            if ti != r.txn && t.h != h.txns[r.txn].h && t.explicit && t.writes.iter().any(|w| w.affected > 0 && w.inv < r.inv) && t.end_inv > r.ret {
+                return true;
+            }
+        }
+    }
+    for (i, t1) in h.txns.iter().enumerate() {
+        for t2 in h.txns.iter().skip(i + 1) {
+            if t1.h != t2.h && !t1.writes.is_empty() && !t2.writes.is_empty() && t1.begin_ret < t2.end_inv && t2.begin_ret < t1.end_inv {
+                return true;
+            }
+        }
+    }
+    false
+}
+
+// ------------------------------------------------------------------------------------------------ running a case
+
+fn open_db(dir: &std::path::Path, tabs: &BTreeSet<u8>, wal: bool) -> Result<Database, String> {
+    let db = match catch(|| Database::create(dir)) {
+        Ok(Ok(d)) => d,
+        Ok(Err(e)) => return Err(format!("create: {:#}", e)),
+        Err(p) => return Err(format!("create panicked: {}", p)),
+    };
+    if wal {
+        exec(&db, "PRAGMA wal = ON").map_err(|e| format!("PRAGMA wal: {}", e))?;
+    }
+    for s in setup_sql(tabs) {
+        exec(&db, &s).map_err(|e| format!("{}: {}", s, e))?;
+    }
+    Ok(db)
+}
+
+struct CaseResult {
+    viols: Vec<Viol>,
+    exercised: bool,
+    errors: usize,
+    reads: usize,
+    stmts: usize,
+}
+
+/// deterministic driver: one thread, the schedule decides which handle issues its next statement
+fn run_det(case: &Case, dir: &std::path::Path) -> Result<CaseResult, String> {
+    let _ = std::fs::remove_dir_all(dir);
+    let tabs = case.tabs();
+    let root = open_db(dir, &tabs, case.wal)?;
+    let handles: Vec<Database> = (0..case.progs.len()).map(|_| root.clone()).collect();
+    let clock = AtomicU64::new(1);
+    let mut runners: Vec<Runner> = handles.iter().enumerate().map(|(h, d)| Runner::new(h, d, &clock)).collect();
+    let uni = |t: u8| case.universe(t);
+    let mut pcs = vec![0usize; case.progs.len()];
+    let mut stmts = 0;
+    for &h in &case.sched {
+        let si = pcs[h];
+        if si >= case.progs[h].len() {
+            continue;
+        }
+        pcs[h] += 1;
+        let val = case.val_of(h, si);
+        runners[h].step(&case.progs[h][si], &val, &uni);
+        stmts += 1;
+    }
+    for r in runners.iter_mut() {
+        r.abort_open();
+    }
+    // epilogue: an observer reads the quiescent state through every path
+    let mut obs = Runner::new(case.progs.len(), &root, &clock);
+    for &t in &tabs {
+        for p in READ_PATHS {
+            obs.read(t, p, &case.universe(t));
+        }
+    }
+    let mut parts: Vec<Hist> = runners.into_iter().map(|r| r.hist).collect();
+    parts.push(obs.hist);
+    let hist = merge_hists(parts);
+    let viols = Oracle::new(&hist, true).check();
+    let res = CaseResult { viols, exercised: exercised(&hist), errors: hist.errors.len(), reads: hist.reads.len(), stmts };
+    drop(handles);
+    drop(root);
+    let _ = std::fs::remove_dir_all(dir);
+    Ok(res)
+}
+
+// ------------------------------------------------------------------------------------------------ program library
+
+fn new_id(h: usize, n: usize) -> i64 {
+    10 + (h as i64) * 10 + n as i64
+}
+
+fn writer_templates(h: usize, tab: u8, x: i64, via: AP) -> Vec<(&'static str, Vec<St>)> {
+    let n = new_id(h, 0);
+    vec![
+        ("txn_update_commit", vec![St::Begin, St::Upd { tab, id: x, via }, St::Commit]),
+        ("txn_update_rollback", vec![St::Begin, St::Upd { tab, id: x, via }, St::Rollback]),
+        ("txn_insert_commit", vec![St::Begin, St::Ins { tab, id: n }, St::Commit]),
+        ("txn_insert_rollback", vec![St::Begin, St::Ins { tab, id: n }, St::Rollback]),
+        ("txn_delete_commit", vec![St::Begin, St::Del { tab, id: x, via }, St::Commit]),
+        ("txn_delete_rollback", vec![St::Begin, St::Del { tab, id: x, via }, St::Rollback]),
+    ]
+}
+fn reader_templates(tab: u8, p: AP) -> Vec<(&'static str, Vec<St>)> {
+    vec![
+        ("txn_read_read", vec![St::Begin, St::Read { tab, path: p }, St::Read { tab, path: p }, St::Commit]),
+        ("auto_read_read", vec![St::Read { tab, path: p }, St::Read { tab, path: p }]),
+    ]
+}
+
+/// the systematic part of the library: writer x reader x path, and writer x writer on one key
+fn base_sets() -> Vec<Vec<Vec<St>>> {
+    let mut sets = vec![];
+    for p in READ_PATHS {
+        for (_, w) in writer_templates(0, 0, 2, AP::Pk) {
+            for (_, r) in reader_templates(0, p) {
+                sets.push(vec![w.clone(), r]);
+            }
+        }
+    }
+    // own writes must be visible through every path
+    for p in READ_PATHS {
+        sets.push(vec![vec![St::Begin, St::Ins { tab: 0, id: new_id(0, 0) }, St::Read { tab: 0, path: p }, St::Commit], vec![St::Read { tab: 0, path: p }]]);
+        sets.push(vec![vec![St::Begin, St::Upd { tab: 0, id: 1, via: AP::Pk }, St::Read { tab: 0, path: p }, St::Rollback], vec![St::Read { tab: 0, path: p }]]);
+        sets.push(vec![vec![St::Begin, St::Del { tab: 0, id: 3, via: AP::Pk }, St::Read { tab: 0, path: p }, St::Commit], vec![St::Read { tab: 0, path: p }]]);
+    }
+    // write-write conflicts
+    for via in WRITE_VIAS {
+        let u = |h: usize| vec![St::Begin, St::Upd { tab: 0, id: 2, via }, St::Commit];
+        let d = |_h: usize| vec![St::Begin, St::Del { tab: 0, id: 2, via }, St::Commit];
+        let ru = |_h: usize| vec![St::Begin, St::Read { tab: 0, path: AP::Pk }, St::Upd { tab: 0, id: 2, via }, St::Commit];
+        let au = |_h: usize| vec![St::Upd { tab: 0, id: 2, via }];
+        let ad = |_h: usize| vec![St::Del { tab: 0, id: 2, via }];
+        sets.push(vec![u(0), u(1)]);
+        sets.push(vec![u(0), d(1)]);
+        sets.push(vec![d(0), d(1)]);
+        sets.push(vec![ru(0), ru(1)]);
+        sets.push(vec![u(0), au(1)]);
+        sets.push(vec![u(0), ad(1)]);
+        sets.push(vec![d(0), au(1)]);
+        sets.push(vec![ru(0), au(1)]);
+    }
+    // three handles: two writers and a reader
+    for p in READ_PATHS {
+        sets.push(vec![
+            vec![St::Begin, St::Upd { tab: 0, id: 1, via: AP::Pk }, St::Commit],
+            vec![St::Begin, St::Ins { tab: 0, id: new_id(1, 0) }, St::Rollback],
+            vec![St::Begin, St::Read { tab: 0, path: p }, St::Read { tab: 0, path: p }, St::Commit],
+        ]);
+    }
+    sets
+}
+
+fn random_prog(rng: &mut Rng, h: usize, two_tabs: bool) -> Vec<St> {
+    let tab = if two_tabs && rng.chance(1, 3) { 1 } else { 0 };
+    let x = *rng.pick(&INIT_IDS);
+    let y = *rng.pick(&INIT_IDS);
+    let via = *rng.pick(&WRITE_VIAS);
+    let p = *rng.pick(&READ_PATHS);
+    let p2 = *rng.pick(&READ_PATHS);
+    let n = new_id(h, 0);
+    let n2 = new_id(h, 1);
+    let end = if rng.chance(2, 3) { St::Commit } else { St::Rollback };
+    let w = |rng: &mut Rng, id: i64| -> St {
+        match rng.below(3) {
+            0 => St::Upd { tab, id, via },
+            1 => St::Del { tab, id, via },
+            _ => St::Ins { tab, id: n },
+        }
+    };
+    match rng.below(12) {
+        0 => vec![St::Begin, w(rng, x), end],
+        1 => vec![St::Begin, w(rng, x), St::Upd { tab, id: y, via }, end],
+        2 => vec![St::Begin, St::Read { tab, path: p }, w(rng, x), end],
+        3 => vec![St::Begin, w(rng, x), St::Read { tab, path: p }, end],
+        4 => vec![St::Begin, St::Read { tab, path: p }, St::Read { tab, path: p2 }, St::Commit],
+        5 => vec![St::Read { tab, path: p }, St::Read { tab, path: p2 }],
+        6 => vec![w(rng, x)],
+        7 => vec![St::Ins { tab, id: n2 }, St::Del { tab, id: n2, via }],
+        8 => vec![St::Upd { tab, id: x, via }, St::Read { tab, path: p }],
+        9 => vec![St::Begin, St::Ins { tab, id: n }, St::Del { tab, id: x, via }, end],
+        10 => vec![St::Read { tab, path: p }, St::Begin, w(rng, x), end],
+        _ => vec![St::Begin, St::Del { tab, id: x, via }, St::Read { tab, path: p }, end],
+    }
+}
+
+fn multinomial(lens: &[usize]) -> u64 {
+    let mut r: u64 = 1;
+    let mut n = 0u64;
+    for &l in lens {
+        for i in 1..=l as u64 {
+            n += 1;
+            r = r.saturating_mul(n) / i;
+        }
+    }
+    r
+}
+
+fn all_merges(lens: &[usize]) -> Vec<Vec<usize>> {
+    fn rec(rem: &mut Vec<usize>, cur: &mut Vec<usize>, out: &mut Vec<Vec<usize>>) {
+        if rem.iter().all(|&r| r == 0) {
+            out.push(cur.clone());
+            return;
+        }
+        for h in 0..rem.len() {
+            if rem[h] > 0 {
+                rem[h] -= 1;
+                cur.push(h);
+                rec(rem, cur, out);
+                cur.pop();
+                rem[h] += 1;
+            }
+        }
+    }
+    let mut out = vec![];
+    rec(&mut lens.to_vec(), &mut vec![], &mut out);
+    out
+}
+
+fn random_merge(rng: &mut Rng, lens: &[usize]) -> Vec<usize> {
+    let mut v = vec![];
+    for (h, &l) in lens.iter().enumerate() {
+        v.extend(std::iter::repeat(h).take(l));
+    }
+    // shuffling the multiset gives a uniformly random merge
+    rng.shuffle(&mut v);
+    v
+}
+
+/// canonical overlapping merges: every handle starts before any handle finishes
+fn canonical_merges(lens: &[usize]) -> Vec<Vec<usize>> {
+    let n = lens.len();
+    let mut out = vec![];
+    // round robin
+    let mut rr = vec![];
+    let mut rem = lens.to_vec();
+    while rem.iter().any(|&r| r > 0) {
+        for h in 0..n {
+            if rem[h] > 0 {
+                rem[h] -= 1;
+                rr.push(h);
+            }
+        }
+    }
+    out.push(rr);
+    // nested: handle 0 all but last, then the others entirely, then handle 0's last; and the mirror image
+    for outer in 0..n.min(2) {
+        let mut v = vec![];
+        v.extend(std::iter::repeat(outer).take(lens[outer].saturating_sub(1)));
+        for h in 0..n {
+            if h != outer {
+                v.extend(std::iter::repeat(h).take(lens[h]));
+            }
+        }
+        v.push(outer);
+        out.push(v);
+        // writer does its write, reader reads once, writer ends, reader reads again
+        if n == 2 {
+            let other = 1 - outer;
+            let mut v = vec![];
+            v.extend(std::iter::repeat(outer).take(lens[outer].saturating_sub(1)));
+            v.extend(std::iter::repeat(other).take(lens[other] / 2));
+            v.push(outer);
+            v.extend(std::iter::repeat(other).take(lens[other] - lens[other] / 2));
+            out.push(v);
+            // reader begins first, then the writer runs completely, then the reader reads
+            let mut v = vec![other];
+            v.extend(std::iter::repeat(outer).take(lens[outer]));
+            v.extend(std::iter::repeat(other).take(lens[other].saturating_sub(1)));
+            out.push(v);
+        }
+    }
+    out.sort();
+    out.dedup();
+    out
+}
+
+/// lazily generated, index-addressable stream of deterministic cases
+struct DetStream {
+    rng: Rng,
+    quick: bool,
+    base: Vec<Vec<Vec<St>>>,
+    set_no: usize,
+    pending: std::collections::VecDeque<Case>,
+    pub sets_emitted: u64,
+    pub sets_exhaustive: u64,
+}
+
+impl DetStream {
+    fn new(seed: u64, quick: bool) -> Self {
+        let mut rng = Rng::derive(seed, 8);
+        let mut base = base_sets();
+        // key / table variation of the base library per seed
+        let shift = rng.below(3) as i64;
+        for set in base.iter_mut() {
+            for p in set.iter_mut() {
+                for st in p.iter_mut() {
+                    match st {
+                        St::Upd { id, .. } | St::Del { id, .. } if *id <= 3 => *id = (*id - 1 + shift) % 3 + 1,
+                        _ => {}
+                    }
+                }
+            }
+        }
+        rng.shuffle(&mut base);
+        DetStream { rng, quick, base, set_no: 0, pending: Default::default(), sets_emitted: 0, sets_exhaustive: 0 }
+    }
+    fn refill(&mut self) {
+        let progs: Vec<Vec<St>> = if self.set_no < self.base.len() {
+            self.base[self.set_no].clone()
+        } else {
+            let n = if self.rng.chance(1, 3) { 3 } else { 2 };
+            let two = self.rng.chance(1, 4);
+            (0..n).map(|h| random_prog(&mut self.rng, h, two)).collect()
+        };
+        self.set_no += 1;
+        self.sets_emitted += 1;
+        let lens: Vec<usize> = progs.iter().map(|p| p.len()).collect();
+        let total = multinomial(&lens);
+        let cap = if self.quick { 0 } else { 4200 };
+        let wal = self.rng.chance(1, 4);
+        let scheds: Vec<Vec<usize>> = if total <= cap {
+            self.sets_exhaustive += 1;
+            all_merges(&lens)
+        } else {
+            let mut v = canonical_merges(&lens);
+            let extra = if self.quick { 2 } else { 40 };
+            for _ in 0..extra {
+                v.push(random_merge(&mut self.rng, &lens));
+            }
+            v.sort();
+            v.dedup();
+            v
+        };
+        for s in scheds {
+            self.pending.push_back(Case { progs: progs.clone(), sched: s, wal });
+        }
+    }
+    fn next(&mut self) -> Case {
+        while self.pending.is_empty() {
+            self.refill();
+        }
+        self.pending.pop_front().unwrap()
+    }
+}
+
+/// greedy shrinking of a case that shows `sig`: drop handles, drop non-control statements, drop whole transactions
+fn shrink(case: &Case, sig: &str, dir: &std::path::Path, budget: usize) -> Case {
+    let shows = |c: &Case| -> bool { run_det(c, dir).map(|r| r.viols.iter().any(|v| v.sig == sig)).unwrap_or(false) };
+    let mut best = case.clone();
+    let mut runs = 0;
+    let mut progress = true;
+    while progress && runs < budget {
+        progress = false;
+        let mut cands: Vec<Case> = vec![];
+        // remove a handle
+        if best.progs.len() > 2 {
+            for h in 0..best.progs.len() {
+                let mut c = best.clone();
+                c.progs.remove(h);
+                c.sched = c.sched.iter().filter(|&&x| x != h).map(|&x| if x > h { x - 1 } else { x }).collect();
+                cands.push(c);
+            }
+        }
+        // remove one statement (and its slot in the schedule); control statements only as BEGIN..END pairs
+        for h in 0..best.progs.len() {
+            for si in 0..best.progs[h].len() {
+                let st = &best.progs[h][si];
+                let mut remove: Vec<usize> = vec![];
+                if !st.is_ctl() {
+                    remove.push(si);
+                } else if matches!(st, St::Begin) {
+                    if let Some(e) = (si + 1..best.progs[h].len()).find(|&j| matches!(best.progs[h][j], St::Commit | St::Rollback)) {
+                        // unwrap the transaction: statements become autocommit
+                        remove.push(si);
+                        remove.push(e);
+                    }
+                }
+                if remove.is_empty() {
+                    continue;
+                }
+                let mut c = best.clone();
+                for &ri in remove.iter().rev() {
+                    c.progs[h].remove(ri);
+                    // drop the ri-th occurrence of h in the schedule
+                    let mut seen = 0;
+                    if let Some(pos) = c.sched.iter().position(|&x| {
+                        if x == h {
+                            seen += 1;
+                            seen - 1 == ri
+                        } else {
+                            false
+                        }
+                    }) {
+                        c.sched.remove(pos);
+                    }
+                }
+                if c.progs.iter().filter(|p| !p.is_empty()).count() >= 1 {
+                    cands.push(c);
+                }
+            }
+        }
+        if best.wal {
+            let mut c = best.clone();
+            c.wal = false;
+            cands.push(c);
+        }
+        for c in cands {
+            if runs >= budget {
+                break;
+            }
+            runs += 1;
+            if shows(&c) {
+                best = c;
+                progress = true;
+                break;
+            }
+        }
+    }
+    best
+}
+
+// ------------------------------------------------------------------------------------------------ threaded driver
+
+fn yield_action(rng: &mut Rng) {
+    match rng.below(8) {
+        0 | 1 => {}
+        2 | 3 => std::thread::yield_now(),
+        4 => {
+            for _ in 0..rng.below(2000) {
+                std::hint::spin_loop();
+            }
+        }
+        5 | 6 => std::thread::sleep(Duration::from_micros(1 + rng.below(200))),
+        _ => std::thread::sleep(Duration::from_micros(200 + rng.below(1500))),
+    }
+}
+
+struct ThrResult {
+    viols: Vec<Viol>,
+    fingerprint: u64,
+    hook_fingerprint: u64,
+    txn_overlap: bool,
+    commit_window_overlap: bool,
+    exercised: bool,
+    stmts: usize,
+    hook_events: u64,
+}
+
+fn run_threaded(seed: u64, dir: &std::path::Path) -> Result<(ThrResult, J), String> {
+    let mut rng = Rng::derive(seed, 8);
+    let n = rng.usize(2, 4);
+    let wal = rng.chance(2, 3);
+    let two = rng.chance(1, 4);
+    let progs: Vec<Vec<St>> = (0..n)
+        .map(|h| {
+            let mut p = vec![];
+            let k = rng.usize(2, 4);
+            for j in 0..k {
+                // distinct insert ids per sub-program
+                let mut sub = random_prog(&mut rng, h, two);
+                for st in sub.iter_mut() {
+                    if let St::Ins { id, .. } | St::Del { id, .. } = st {
+                        if *id >= 10 {
+                            *id += 100 * (j as i64 + 1);
+                        }
+                    }
+                }
+                p.extend(sub);
+            }
+            p
+        })
+        .collect();
+    let case = Case { progs, sched: vec![], wal };
+    let _ = std::fs::remove_dir_all(dir);
+    let tabs = case.tabs();
+    let root = open_db(dir, &tabs, wal)?;
+    let clock = Arc::new(AtomicU64::new(1));
+    // yield hook: perturbs and records the order of hook events; tracks the commit window
+    let in_window: Arc<Vec<AtomicBool>> = Arc::new((0..8).map(|_| AtomicBool::new(false)).collect());
+    let overlap = Arc::new(AtomicBool::new(false));
+    let hook_log: Arc<Mutex<Vec<(usize, &'static str)>>> = Arc::new(Mutex::new(vec![]));
+    thread_local! { static TID: std::cell::Cell<usize> = std::cell::Cell::new(99); static HRNG: std::cell::RefCell<Option<Rng>> = std::cell::RefCell::new(None); }
+    {
+        let in_window = in_window.clone();
+        let overlap = overlap.clone();
+        let hook_log = hook_log.clone();
+        turdb::verif::set_yield_hook(Some(Arc::new(move |name: &'static str| {
+            let tid = TID.with(|t| t.get());
+            if tid == 99 {
+                return;
+            }
+            hook_log.lock().unwrap().push((tid, name));
+            if name == "commit.after_capture" {
+                in_window[tid].store(true, Ordering::SeqCst);
+                if in_window.iter().enumerate().any(|(i, w)| i != tid && w.load(Ordering::SeqCst)) {
+                    overlap.store(true, Ordering::SeqCst);
+                }
+            }
+            HRNG.with(|r| {
+                if let Some(r) = r.borrow_mut().as_mut() {
+                    yield_action(r);
+                }
+            });
+        })));
+    }
+    let barrier = Arc::new(std::sync::Barrier::new(n));
+    let case = Arc::new(case);
+    let mut joins = vec![];
+    for h in 0..n {
+        let db = root.clone();
+        let clock = clock.clone();
+        let case = case.clone();
+        let barrier = barrier.clone();
+        let in_window = in_window.clone();
+        let tseed = seed.wrapping_mul(31).wrapping_add(h as u64);
+        joins.push(std::thread::spawn(move || {
+            TID.with(|t| t.set(h));
+            HRNG.with(|r| *r.borrow_mut() = Some(Rng::derive(tseed, 808)));
+            let mut lrng = Rng::derive(tseed, 809);
+            let mut run = Runner::new(h, &db, &clock);
+            let uni = |t: u8| case.universe(t);
+            barrier.wait();
+            for (si, st) in case.progs[h].iter().enumerate() {
+                let val = case.val_of(h, si);
+                run.step(st, &val, &uni);
+                if matches!(st, St::Commit) {
+                    in_window[h].store(false, Ordering::SeqCst);
+                }
+                if lrng.chance(1, 2) {
+                    yield_action(&mut lrng);
+                }
+            }
+            run.abort_open();
+            in_window[h].store(false, Ordering::SeqCst);
+            run.hist
+        }));
+    }
+    let mut parts = vec![];
+    for j in joins {
+        match j.join() {
+            Ok(h) => parts.push(h),
+            Err(_) => {
+                turdb::verif::set_yield_hook(None);
+                return Err("worker thread panicked outside a statement".into());
+            }
+        }
+    }
+    turdb::verif::set_yield_hook(None);
+    let mut obs = Runner::new(n, &root, &clock);
+    for &t in &tabs {
+        for p in [AP::Scan, AP::Pk, AP::Sec] {
+            obs.read(t, p, &case.universe(t));
+        }
+    }
+    parts.push(obs.hist);
+    let hist = merge_hists(parts);
+    let viols = Oracle::new(&hist, false).check();
+    // fingerprint: global order of statements (by invocation) as (handle, kind)
+    let mut order: Vec<(u64, usize, u8)> = vec![];
+    for t in &hist.txns {
+        if t.h >= n {
+            continue;
+        }
+        if t.explicit {
+            order.push((t.begin_inv, t.h, 0));
+            if t.end_inv != u64::MAX {
+                order.push((t.end_inv, t.h, 1));
+            }
+        }
+        for w in &t.writes {
+            order.push((w.inv, t.h, 2));
+        }
+    }
+    for r in &hist.reads {
+        let h = hist.txns[r.txn].h;
+        if h < n {
+            order.push((r.inv, h, 3));
+        }
+    }
+    order.sort();
+    let fp = fnv(format!("{:?}|{:?}", case.progs, order.iter().map(|o| (o.1, o.2)).collect::<Vec<_>>()).as_bytes());
+    let hl = hook_log.lock().unwrap().clone();
+    let hfp = fnv(format!("{:?}", hl).as_bytes());
+    let mut txn_overlap = false;
+    for (i, t1) in hist.txns.iter().enumerate() {
+        for t2 in hist.txns.iter().skip(i + 1) {
+            if t1.h != t2.h && t1.explicit && t2.explicit && t1.begin_ret < t2.end_inv && t2.begin_ret < t1.end_inv {
+                txn_overlap = true;
+            }
+        }
+    }
+    let stmts = case.progs.iter().map(|p| p.len()).sum();
+    let descr = json!({"threads": n, "wal": wal, "programs": case.progs.iter().enumerate().map(|(h, p)| p.iter().enumerate().map(|(si, st)| st.sql(&case.val_of(h, si))).collect::<Vec<_>>()).collect::<Vec<_>>()});
+    let res = ThrResult { viols, fingerprint: fp, hook_fingerprint: hfp, txn_overlap, commit_window_overlap: overlap.load(Ordering::SeqCst), exercised: exercised(&hist), stmts, hook_events: hl.len() as u64 };
+    drop(root);
+    let _ = std::fs::remove_dir_all(dir);
+    Ok((res, descr))
+}
+
+// ------------------------------------------------------------------------------------------------ worker process
+
+fn emit(v: J) {
+    let out = std::io::stdout();
+    let mut l = out.lock();
+    let _ = writeln!(l, "{}", v);
+    let _ = l.flush();
+}
+
+/// `tv C08 --tier T --seed S worker <det|thr> <start index> <budget seconds> [only]`
+fn worker_main(a: &Args) -> i32 {
+    let phase = a.rest.get(1).map(|s| s.as_str()).unwrap_or("det").to_string();
+    let start: u64 = a.rest.get(2).and_then(|s| s.parse().ok()).unwrap_or(0);
+    let budget: f64 = a.rest.get(3).and_then(|s| s.parse().ok()).unwrap_or(10.0);
+    let only = a.rest.get(4).map(|s| s == "only").unwrap_or(false);
+    let quick = a.tier == "quick";
+    let t0 = Instant::now();
+    let scratch = Scratch::new(&format!("c08w{}", phase));
+    let mut seen_sigs: BTreeSet<String> = BTreeSet::new();
+    if phase == "det" {
+        let mut stream = DetStream::new(a.seed, quick);
+        let mut idx = 0u64;
+        loop {
+            let case = stream.next();
+            if idx < start {
+                idx += 1;
+                continue;
+            }
+            if t0.elapsed().as_secs_f64() > budget && !only {
+                break;
+            }
+            emit(json!({"start": idx}));
+            let dir = scratch.dir("db");
+            match run_det(&case, &dir) {
+                Err(e) => emit(json!({"case": idx, "setup_error": e})),
+                Ok(res) => {
+                    let mut sigs = vec![];
+                    for v in &res.viols {
+                        let first = seen_sigs.insert(v.sig.clone());
+                        if first {
+                            // minimal schedule for the first occurrence of each signature
+                            let small = if v.assertion == "no_panic" || (case.sched.len() <= 5 && case.progs.len() == 2) { case.clone() } else { shrink(&case, &v.sig, &scratch.dir("shrink"), if quick { 25 } else { 60 }) };
+                            let small_detail = run_det(&small, &scratch.dir("shrink")).ok().and_then(|r| r.viols.into_iter().find(|x| x.sig == v.sig)).map(|x| x.detail);
+                            sigs.push(json!({"assertion": v.assertion, "sig": v.sig, "detail": {"original": case.render(), "original_detail": v.detail, "minimal": small.render(), "minimal_detail": small_detail, "minimal_statements": small.sched.len()}}));
+                        } else {
+                            sigs.push(json!({"assertion": v.assertion, "sig": v.sig}));
+                        }
+                    }
+                    emit(json!({"case": idx, "hash": case.hash(), "exercised": res.exercised, "sigs": sigs, "errors": res.errors, "reads": res.reads, "stmts": res.stmts, "handles": case.progs.len(), "wal": case.wal,
+                        "sample": if idx % 97 == 3 { case.render() } else { J::Null }}));
+                }
+            }
+            idx += 1;
+            if only {
+                break;
+            }
+        }
+        emit(json!({"done": true, "next": idx, "sets": stream.sets_emitted, "sets_exhaustive": stream.sets_exhaustive}));
+    } else {
+        let mut idx = start;
+        loop {
+            if t0.elapsed().as_secs_f64() > budget && !only {
+                break;
+            }
+            emit(json!({"start": idx}));
+            let rseed = a.seed.wrapping_mul(1_000_003).wrapping_add(idx);
+            match run_threaded(rseed, &scratch.dir("db")) {
+                Err(e) => emit(json!({"case": idx, "setup_error": e})),
+                Ok((res, descr)) => {
+                    let mut sigs = vec![];
+                    for v in &res.viols {
+                        let first = seen_sigs.insert(v.sig.clone());
+                        if first {
+                            sigs.push(json!({"assertion": v.assertion, "sig": v.sig, "detail": {"threaded_round": descr, "round_seed": rseed, "detail": v.detail}}));
+                        } else {
+                            sigs.push(json!({"assertion": v.assertion, "sig": v.sig}));
+                        }
+                    }
+                    emit(json!({"case": idx, "hash": res.fingerprint, "hook_fp": res.hook_fingerprint, "exercised": res.exercised, "sigs": sigs, "txn_overlap": res.txn_overlap, "commit_window_overlap": res.commit_window_overlap,
+                        "stmts": res.stmts, "hook_events": res.hook_events, "sample": if idx % 41 == 1 { descr } else { J::Null }}));
+                }
+            }
+            idx += 1;
+            if only {
+                break;
+            }
+        }
+        emit(json!({"done": true, "next": idx}));
+    }
+    0
+}
+
+// ------------------------------------------------------------------------------------------------ supervisor (shared with C38)
+
+pub enum Outcome {
+    Finished,
+    /// no output for the stall limit; the case announced last
+    Stalled(Option<u64>),
+    /// the worker died (signal / abort / non-zero exit)
+    Died(String, Option<u64>),
+}
+
+/// Run `tv <prop> --tier .. --seed .. worker <args>` and feed every JSON line it prints to `on_line`.
+pub fn supervise(prop: &str, tier: &str, seed: u64, args: &[String], stall: Duration, on_line: &mut dyn FnMut(&J)) -> Outcome {
+    let exe = std::env::current_exe().unwrap();
+    let mut cmd = std::process::Command::new(exe);
+    cmd.arg(prop).arg("--tier").arg(tier).arg("--seed").arg(seed.to_string()).arg("worker");
+    for x in args {
+        cmd.arg(x);
+    }
+    cmd.env("RUST_BACKTRACE", "0");
+    let mut child = match cmd.stdout(std::process::Stdio::piped()).stderr(std::process::Stdio::null()).spawn() {
+        Ok(c) => c,
+        Err(e) => return Outcome::Died(format!("spawn failed: {}", e), None),
+    };
+    let stdout = child.stdout.take().unwrap();
+    let (tx, rx) = mpsc::channel::<String>();
+    let reader = std::thread::spawn(move || {
+        let br = std::io::BufReader::new(stdout);
+        for line in br.lines() {
+            match line {
+                Ok(l) => {
+                    if tx.send(l).is_err() {
+                        break;
+                    }
+                }
+                Err(_) => break,
+            }
+        }
+    });
+    let mut last_start: Option<u64> = None;
+    let mut done = false;
+    let outcome = loop {
+        match rx.recv_timeout(stall) {
+            Ok(l) => {
+                if let Ok(v) = serde_json::from_str::<J>(&l) {
+                    if let Some(s) = v.get("start").and_then(|s| s.as_u64()) {
+                        last_start = Some(s);
+                    }
+                    if v.get("done").is_some() {
+                        done = true;
+                    }
+                    on_line(&v);
+                }
+            }
+            Err(mpsc::RecvTimeoutError::Timeout) => {
+                let _ = child.kill();
+                let _ = child.wait();
+                break Outcome::Stalled(last_start);
+            }
+            Err(mpsc::RecvTimeoutError::Disconnected) => {
+                let st = child.wait();
+                break match st {
+                    Ok(s) if s.success() && done => Outcome::Finished,
+                    Ok(s) => Outcome::Died(format!("{:?}", s), last_start),
+                    Err(e) => Outcome::Died(e.to_string(), last_start),
+                };
+            }
+        }
+    };
+    let _ = reader.join();
+    // scratch directory of a killed worker
+    outcome
+}
+
+pub fn cleanup_worker_scratch(prefix: &str) {
+    if let Ok(rd) = std::fs::read_dir(format!("{}/scratch", crate::report::VERIF_DIR)) {
+        for e in rd.flatten() {
+            let name = e.file_name().to_string_lossy().to_string();
+            if name.starts_with(prefix) {
+                // only directories of processes that no longer exist
+                if let Some(pid) = name.rsplit('-').next().and_then(|p| p.parse::<u32>().ok()) {
+                    if !std::path::Path::new(&format!("/proc/{}", pid)).exists() {
+                        let _ = std::fs::remove_dir_all(e.path());
+                    }
+                }
+            }
+        }
+    }
+}
+
+pub fn run(a: &Args) -> i32 {
+    if a.rest.first().map(|s| s == "worker").unwrap_or(false) {
+        return worker_main(a);
+    }
+    let mut ctx = Ctx::new(
+        "C08",
+        &a.tier,
+        a.seed,
+        "exploration",
+        "(i) deterministic statement-level interleavings: 2-3 cloned handles on one thread, per-handle programs (autocommit statements or BEGIN..COMMIT/ROLLBACK with INSERT/UPDATE/DELETE located by PK, secondary index or scan predicate, and reads through full scan / PK lookup / secondary-index lookup / COUNT(*)) on 1-2 three-row tables; thorough enumerates ALL merges of every program set with <= 4200 merges (systematic writer x reader x path library plus random sets), quick runs canonical overlapping merges plus random ones; each schedule on a fresh database, 1/4 with PRAGMA wal=ON. (ii) threaded rounds: 2-4 threads on cloned handles running random programs, yield hook perturbing the commit path. Every written value is unique (h<handle>t<txn>s<stmt>). Oracle = history checker: no_dirty_read, no_aborted_read, snapshot (committed state at BEGIN plus own writes, per key), no_lost_update, per access path; first occurrence of each signature is shrunk to a minimal schedule. distinct_nontrivial = distinct (programs, schedule) / threaded statement-order fingerprints in which a read ran while another handle's writing transaction was open or two writing transactions overlapped",
+    );
+    let quick = ctx.quick();
+    let (det_budget, thr_budget, stall) = if quick { (26.0, 12.0, 25u64) } else { (330.0, 170.0, 40u64) };
+    let mut minimal: BTreeMap<String, J> = BTreeMap::new();
+    let mut fps: BTreeSet<u64> = BTreeSet::new();
+    let mut hook_fps: BTreeSet<u64> = BTreeSet::new();
+    let mut sig_counts: BTreeMap<String, u64> = BTreeMap::new();
+    for phase in ["det", "thr"] {
+        let total_budget = if phase == "det" { det_budget } else { thr_budget };
+        let phase_start = Instant::now();
+        let mut start_idx = 0u64;
+        let mut restarts = 0;
+        loop {
+            let remaining = total_budget - phase_start.elapsed().as_secs_f64();
+            if remaining < 1.0 || restarts > 3 {
+                break;
+            }
+            let args = vec![phase.to_string(), start_idx.to_string(), format!("{:.1}", remaining)];
+            let mut next_idx = start_idx;
+            let outcome = {
+                let ctx = &mut ctx;
+                let minimal = &mut minimal;
+                let fps = &mut fps;
+                let hook_fps = &mut hook_fps;
+                let sig_counts = &mut sig_counts;
+                let next_idx = &mut next_idx;
+                supervise("C08", &a.tier, a.seed, &args, Duration::from_secs(stall), &mut |v: &J| {
+                    if let Some(n) = v.get("next").and_then(|n| n.as_u64()) {
+                        *next_idx = n;
+                        if let Some(s) = v.get("sets").and_then(|s| s.as_u64()) {
+                            ctx.count("det_program_sets", s);
+                            ctx.count("det_program_sets_all_merges_enumerated", v["sets_exhaustive"].as_u64().unwrap_or(0));
+                        }
+                        return;
+                    }
+                    if v.get("case").is_none() {
+                        return;
+                    }
+                    if let Some(e) = v.get("setup_error").and_then(|e| e.as_str()) {
+                        ctx.count("setup_errors", 1);
+                        ctx.violation("setup", &format!("C08/setup_failed/{}", phase), json!({"error": e}));
+                        return;
+                    }
+                    ctx.eval();
+                    ctx.count(&format!("{}_cases", phase), 1);
+                    ctx.count(&format!("{}_statements", phase), v["stmts"].as_u64().unwrap_or(0));
+                    if v["exercised"].as_bool().unwrap_or(false) {
+                        ctx.nontrivial(v["hash"].as_u64().unwrap_or(0) ^ if phase == "thr" { 0x5555 } else { 0 });
+                        ctx.count(&format!("{}_cases_with_overlap", phase), 1);
+                    }
+                    if phase == "det" {
+                        ctx.count("det_read_probes", v["reads"].as_u64().unwrap_or(0));
+                        ctx.count("det_statement_errors", v["errors"].as_u64().unwrap_or(0));
+                        ctx.count(&format!("det_cases_{}_handles", v["handles"].as_u64().unwrap_or(0)), 1);
+                        if v["wal"].as_bool().unwrap_or(false) {
+                            ctx.count("det_cases_wal_on", 1);
+                        }
+                        fps.insert(v["hash"].as_u64().unwrap_or(0));
+                    } else {
+                        fps.insert(v["hash"].as_u64().unwrap_or(0) ^ 0x5555);
+                        hook_fps.insert(v["hook_fp"].as_u64().unwrap_or(0));
+                        ctx.count("thr_yield_hook_events", v["hook_events"].as_u64().unwrap_or(0));
+                        if v["txn_overlap"].as_bool().unwrap_or(false) {
+                            ctx.count("thr_rounds_with_overlapping_transactions", 1);
+                        }
+                        if v["commit_window_overlap"].as_bool().unwrap_or(false) {
+                            ctx.count("thr_rounds_with_two_threads_in_commit_window", 1);
+                        }
+                    }
+                    if !v["sample"].is_null() {
+                        ctx.sample(v["sample"].clone());
+                    }
+                    if let Some(sigs) = v["sigs"].as_array() {
+                        for s in sigs {
+                            let sig = s["sig"].as_str().unwrap_or("").to_string();
+                            *sig_counts.entry(sig.clone()).or_insert(0) += 1;
+                            let detail = s.get("detail").cloned().unwrap_or(J::Null);
+                            if !detail.is_null() {
+                                let n = detail["minimal_statements"].as_u64().unwrap_or(u64::MAX);
+                                let better = minimal.get(&sig).map(|m| m["minimal_statements"].as_u64().unwrap_or(u64::MAX) > n).unwrap_or(true);
+                                if better {
+                                    minimal.insert(sig.clone(), json!({"minimal_statements": n, "minimal": detail.get("minimal").cloned().unwrap_or(detail.clone()), "detail": detail.get("minimal_detail").cloned().unwrap_or(J::Null)}));
+                                }
+                            }
+                            ctx.violation(s["assertion"].as_str().unwrap_or("?"), &sig, detail);
+                        }
+                    }
+                })
+            };
+            match outcome {
+                Outcome::Finished => break,
+                Outcome::Stalled(idx) | Outcome::Died(_, idx) => {
+                    let died = if let Outcome::Died(s, _) = &outcome { Some(s.clone()) } else { None };
+                    restarts += 1;
+                    let Some(idx) = idx else {
+                        ctx.inconclusive(&format!("{} worker failed before announcing a case: {:?}", phase, died));
+                        break;
+                    };
+                    // solitary re-run with a generous limit
+                    let args = vec![phase.to_string(), idx.to_string(), "0".to_string(), "only".to_string()];
+                    let again = supervise("C08", &a.tier, a.seed, &args, Duration::from_secs(90), &mut |_v: &J| {});
+                    match (&again, &died) {
+                        (Outcome::Stalled(_), _) => {
+                            ctx.violation("progress", &format!("C08/progress/{}_case_blocks", phase), json!({"phase": phase, "case_index": idx, "seed": a.seed, "why": "the case produced no result within the limit, twice, the second time alone"}));
+                        }
+                        (Outcome::Died(s2, _), _) => {
+                            ctx.violation("no_crash", &format!("C08/process_death/{}", phase), json!({"phase": phase, "case_index": idx, "status": s2, "first_status": died}));
+                        }
+                        (Outcome::Finished, Some(s)) => {
+                            ctx.count("worker_deaths_not_reproduced", 1);
+                            ctx.extra.insert("last_unreproduced_death".into(), json!({"phase": phase, "case_index": idx, "status": s}));
+                        }
+                        (Outcome::Finished, None) => ctx.count("stalls_not_reproduced", 1),
+                    }
+                    start_idx = idx + 1;
+                }
+            }
+            if matches!(outcome, Outcome::Finished) {
+                break;
+            }
+            let _ = next_idx;
+        }
+    }
+    cleanup_worker_scratch("c08w");
+    ctx.count("distinct_interleavings_observed", fps.len() as u64);
+    ctx.count("thr_distinct_yield_hook_orders", hook_fps.len() as u64);
+    ctx.extra.insert("signature_counts".into(), json!(sig_counts));
+    ctx.extra.insert("minimal_schedules".into(), json!(minimal));
+    ctx.assumptions.push("snapshot = committed state when BEGIN returned (README: snapshot isolation); an autocommit statement is a transaction of its own; a client that gets an error inside a transaction rolls back and stops; PK conflicts between concurrent inserts are not generated; threaded rounds judge only what is certain from invocation/return order (a value is 'dirty' only if its writer's COMMIT was issued after the read returned)".into());
+    ctx.finish()
 }
